@@ -95,7 +95,7 @@ def copy_specs(dst):
 def tlc(cwd, module, cfg, workers=4, env=None, timeout=3600, heap='6g', outfile=None, extra=None):
     meta = os.path.join(cwd, 'md_%s_%d_%d' % (module, os.getpid(), next(_META_COUNTER)))
     gc = ['-XX:+UseParallelGC'] if workers > 1 else ['-XX:+UseSerialGC', '-XX:TieredStopAtLevel=4', '-XX:CICompilerCount=2']
-    cmd = ['java'] + gc + ['-Xmx' + heap, '-cp', JAVA_CP, 'tlc2.TLC', '-workers', str(workers),
+    cmd = ['java'] + gc + ['-Xss512m', '-Xmx' + heap, '-cp', JAVA_CP, 'tlc2.TLC', '-workers', str(workers),
            '-metadir', meta, '-config', cfg] + (extra or []) + [module + '.tla']
     with _TLC_SEM:
         if outfile:
